@@ -9,6 +9,7 @@ def rules_for(pid):
 
 def _c01():
     return [
+        ("R-RANGE-START", "no `start < 0` test (after counting from the end) sends a range command to its empty answer: a negative start means the first element", rules_coll.rule_range_start("C01")),
         ("R-ARG-ORDER", "the command layer does not re-order (sort / reverse / dedup) pairs or list elements it collected from the command's frames before applying them", rules_cmd.make_arg_order_rule("C01")),
         ("R-DISPATCH", "every command named by the property has a dispatcher arm that reaches the storage engine, with the effect class (read-only / mutating) and the storage primitive its reference semantics need",
          rules_cmd.make_dispatch_rule("C01")),
@@ -39,6 +40,7 @@ def _c02():
 
 def _c04():
     return [
+        ("R-RANGE-START", "no `start < 0` test (after counting from the end) sends a range command to its empty answer: a negative start means the first element", rules_coll.rule_range_start("C04")),
         ("R-ARG-ORDER", "the command layer does not re-order (sort / reverse / dedup) pairs or list elements it collected from the command's frames before applying them", rules_cmd.make_arg_order_rule("C04")),
         ("R-DISPATCH", "every sorted-set command named by the property has a dispatcher arm reaching the engine with the right effect class and skip-list primitive", rules_cmd.make_dispatch_rule("C04")),
         ("R-BYTES-ENGINE", "every bytes-only argument (key, value, member, field, field map) the command layer hands to the storage engine carries the client's bytes: no lossy / UTF-8-only decoding, case mapping, cutting or sorting on its value flow inside the handler", rules_cmd.make_bytes_engine_rule("C04")),
@@ -130,6 +132,7 @@ def _c11():
 
 def _c12():
     return [
+        ("R-LUA-CACHE-KEEP", "entries leave the script cache only in functions that do not also store a script (the flush path): no eviction on the load path", rules_lua.rule_cache_keep),
         ("R-LUA-SANDBOX", "os, io, debug, package, require, dofile, loadfile, load are nulled in every Lua context that runs scripts", rules_lua.rule_sandbox),
         ("R-LUA-BLOCK", "connection, blocking, transaction, pub/sub, scripting and process commands are refused by the script front end, and nothing the executor implements escapes the block list", rules_lua.rule_block),
         ("R-PARITY", "every catalogue command dispatched by the server is implemented by the script-side executor with the same effect class and storage primitive", rules_lua.rule_parity),
@@ -166,6 +169,7 @@ def _c13():
 
 def _c14():
     return [
+        ("R-PS-SUBSCRIBED", "a bool function of the subscription manager that looks into a connection's record consults both its channel set and its pattern set (or neither)", rules_pubsub.rule_subscribed),
         ("R-PS-PAIR", "per-connection subscription sets and the global channel/pattern maps are updated together with the same connection id; emptied sets and SubscriberInfo are removed; unsubscribe_all sweeps both maps", rules_pubsub.rule_pair),
         ("R-PS-COUNT", "the acknowledged count is channels.len()+patterns.len() of the connection's entry taken after the update", rules_pubsub.rule_count),
         ("R-PS-REPLYCOUNT", "PUBLISH replies with the length of the receiver list it then delivers to", rules_pubsub.rule_replycount),
@@ -288,6 +292,8 @@ def _c18():
 
 def _c03():
     return [
+        ("R-RANGE-START", "no `start < 0` test (after counting from the end) sends a range command to its empty answer: a negative start means the first element", rules_coll.rule_range_start("C03")),
+        ("R-SRAND-REPEAT", "the loop drawing SRANDMEMBER's with-repetition picks runs a number of times that does not depend on the set's cardinality", rules_coll.rule_srand_repeat),
         ("R-ARG-ORDER", "the command layer does not re-order (sort / reverse / dedup) pairs or list elements it collected from the command's frames before applying them", rules_cmd.make_arg_order_rule("C03")),
         ("R-DISPATCH", "every list/set/hash command named by the property has a dispatcher arm reaching the engine with the right effect class and storage primitive (e.g. LPUSH must reach a front insertion, RPOP a back removal)", rules_cmd.make_dispatch_rule("C03")),
         ("R-BYTES-ENGINE", "every bytes-only argument (key, value, member, field, field map) the command layer hands to the storage engine carries the client's bytes: no lossy / UTF-8-only decoding, case mapping, cutting or sorting on its value flow inside the handler", rules_cmd.make_bytes_engine_rule("C03")),
